@@ -16,6 +16,7 @@ from mido import ports
 from mido.backends.backend import Backend
 
 ID = 'C20'
+ANCHORS = ['mido.backends.backend']
 LEVEL = 'exploration'
 RULE = ('full grid: 6 entry points (open_input/open_output/open_ioport/get_*_names) x port name '
         'given/absent x MIDO_DEFAULT_INPUT/OUTPUT/IOPORT each set/unset x api from {backend name '
